@@ -293,7 +293,7 @@ impl Finds {
                     // the mistyped letter is usually a plain letter of the alphabet, sometimes an accented letter of the
                     // language (one that its tables map to a single letter or leave alone): such a query is not plain ASCII
                     // even when the title is
-                    let accented: Vec<char> = oracle::accents(lang).iter().map(|a| a.composed).filter(|c| c.is_lowercase()).chain(if lang == "xr" { vec!['é'] } else { vec![] }).collect();
+                    let accented: Vec<char> = oracle::accents(lang).iter().map(|a| a.composed).filter(|c| c.is_lowercase() && oracle::fold(lang, *c).map(|f| f.chars().count() == 1).unwrap_or(true)).chain(if lang == "xr" { vec!['é'] } else { vec![] }).collect();
                     for pos in positions(cx, 0, cs.len()) {
                         for kind in 0..4 {
                             let alpha: Vec<char> = if !accented.is_empty() && kind < 2 && cx.rng.chance(1, 8) { accented.clone() } else { alpha.clone() };
@@ -629,10 +629,10 @@ impl Prop for Finds {
     }
     fn floors(&self) -> Vec<(&'static str, u64, u64)> {
         match self.0 {
-            Which::Prefix => vec![("prefix len 1", 500, 5000), ("prefix len 2", 500, 5000), ("prefix len >3", 2000, 20000), ("word with stem < len", 200, 2000), ("function word", 20, 200), ("word > 20 letters", 20, 200), ("judged queries echoed through the registry after a locale switch of the id", 500, 5000), ("judged queries preceded by the same query under a lower limit", 1000, 10000), ("stores with a title in letters outside the BMP", 20, 200), ("stores with a word (or word pair) of more than 1024 letters", 2, 20), ("stores cleared and refilled before the judged searches", 100, 1000), ("judged queries preceded by the searches of a person typing them", 5000, 50000), ("titles with more than 20 words", 100, 1000)],
-            Which::Typo => vec![("substitution at first", 50, 500), ("insertion at first", 50, 500), ("deletion at first", 50, 500), ("transposition at first", 50, 500), ("transposition at last", 50, 500), ("len 5", 200, 2000), ("len >20", 100, 1000), ("judged queries echoed through the registry after a locale switch of the id", 500, 5000), ("judged queries preceded by the same query under a lower limit", 1000, 10000), ("stores with a title in letters outside the BMP", 20, 200), ("stores with a word (or word pair) of more than 1024 letters", 2, 20), ("stores cleared and refilled before the judged searches", 100, 1000), ("typo letter that is an accented letter of the language", 3000, 30000), ("judged queries preceded by the searches of a person typing them", 5000, 50000), ("titles with more than 20 words", 30, 300), ("exhaustive-letter edits", 30000, 250000), ("exhaustive-letter words that are function words", 150, 150)],
-            Which::Whole => vec![("whole title", 1000, 10000), ("first last", 300, 3000), ("judged queries echoed through the registry after a locale switch of the id", 500, 5000), ("judged queries preceded by the same query under a lower limit", 1000, 10000), ("stores with a title in letters outside the BMP", 20, 200), ("stores with a word (or word pair) of more than 1024 letters", 2, 20), ("stores cleared and refilled before the judged searches", 100, 1000), ("judged queries preceded by the searches of a person typing them", 5000, 50000), ("last first", 300, 3000), ("title with function word", 50, 500), ("titles with more than 20 words", 200, 2000), ("catalogues searched while small, then grown and given limit = N", 6, 60), ("titles with more than 65 536 distinct grams", 1, 10)],
-            Which::SplitJoin => vec![("split", 2000, 20000), ("split after first letter", 200, 2000), ("judged queries echoed through the registry after a locale switch of the id", 500, 5000), ("judged queries preceded by the same query under a lower limit", 1000, 10000), ("stores with a title in letters outside the BMP", 20, 200), ("stores with a word (or word pair) of more than 1024 letters", 2, 20), ("stores cleared and refilled before the judged searches", 100, 1000), ("judged queries preceded by the searches of a person typing them", 5000, 50000), ("join", 100, 1000), ("join with 1-letter first word", 3, 30), ("titles with more than 20 words", 100, 1000), ("split followed by a separator", 20000, 200000), ("split next to symbols inside the word", 300, 3000)],
+            Which::Prefix => vec![("prefix len 1", 500, 5000), ("prefix len 2", 500, 5000), ("prefix len >3", 2000, 20000), ("word with stem < len", 200, 2000), ("function word", 20, 200), ("word > 20 letters", 20, 200), ("judged queries echoed through the registry after a locale switch of the id", 500, 5000), ("judged queries preceded by the same query under a lower limit", 1000, 10000), ("stores with a title in letters outside the BMP", 20, 200), ("stores with a word (or word pair) of more than 1024 letters", 2, 20), ("stores with a word of more than 4096 letters", 2, 20), ("stores cleared and refilled before the judged searches", 100, 1000), ("judged queries preceded by the searches of a person typing them", 5000, 50000), ("titles with more than 20 words", 100, 1000)],
+            Which::Typo => vec![("substitution at first", 50, 500), ("insertion at first", 50, 500), ("deletion at first", 50, 500), ("transposition at first", 50, 500), ("transposition at last", 50, 500), ("len 5", 200, 2000), ("len >20", 100, 1000), ("judged queries echoed through the registry after a locale switch of the id", 500, 5000), ("judged queries preceded by the same query under a lower limit", 1000, 10000), ("stores with a title in letters outside the BMP", 20, 200), ("stores with a word (or word pair) of more than 1024 letters", 2, 20), ("stores with a word of more than 4096 letters", 2, 20), ("stores cleared and refilled before the judged searches", 100, 1000), ("typo letter that is an accented letter of the language", 3000, 30000), ("judged queries preceded by the searches of a person typing them", 5000, 50000), ("titles with more than 20 words", 30, 300), ("exhaustive-letter edits", 30000, 250000), ("exhaustive-letter words that are function words", 150, 150)],
+            Which::Whole => vec![("whole title", 1000, 10000), ("first last", 300, 3000), ("judged queries echoed through the registry after a locale switch of the id", 500, 5000), ("judged queries preceded by the same query under a lower limit", 1000, 10000), ("stores with a title in letters outside the BMP", 20, 200), ("stores with a word (or word pair) of more than 1024 letters", 2, 20), ("stores with a word of more than 4096 letters", 2, 20), ("stores cleared and refilled before the judged searches", 100, 1000), ("judged queries preceded by the searches of a person typing them", 5000, 50000), ("last first", 300, 3000), ("title with function word", 50, 500), ("titles with more than 20 words", 200, 2000), ("catalogues searched while small, then grown and given limit = N", 6, 60), ("titles with more than 65 536 distinct grams", 1, 10)],
+            Which::SplitJoin => vec![("split", 2000, 20000), ("split after first letter", 200, 2000), ("judged queries echoed through the registry after a locale switch of the id", 500, 5000), ("judged queries preceded by the same query under a lower limit", 1000, 10000), ("stores with a title in letters outside the BMP", 20, 200), ("stores with a word (or word pair) of more than 1024 letters", 2, 20), ("stores with a word of more than 4096 letters", 2, 20), ("stores cleared and refilled before the judged searches", 100, 1000), ("judged queries preceded by the searches of a person typing them", 5000, 50000), ("join", 100, 1000), ("join with 1-letter first word", 3, 30), ("titles with more than 20 words", 100, 1000), ("split followed by a separator", 20000, 200000), ("split next to symbols inside the word", 300, 3000)],
         }
     }
     fn ratios(&self) -> Vec<(&'static str, &'static str, f64, f64)> {
@@ -672,21 +672,38 @@ impl Prop for Finds {
                     recs.push((88, t, 2));
                     cx.count("stores with a title in letters outside the BMP");
                 }
-                if cx.tier != Tier::Miri && cx.rng.chance(1, 250) {
+                // (at fixed case numbers: a word of more than 4096 letters - some 17 million matrix cells per search)
+                let giant4k = cx.tier != Tier::Miri && idx % 1200 == 601;
+                if cx.tier != Tier::Miri && (giant4k || cx.rng.chance(1, 250)) {
                     // a title with a word of more than 1024 letters, or two words whose run-together spelling passes 1024
                     let alpha = gen::lower_alphabet(lang);
-                    let t = if cx.rng.chance(1, 2) {
-                        // (one in three beyond 2048 letters)
-                        if cx.rng.chance(1, 3) {
-                            format!("{} {}", gen::any_word(&mut cx.rng, lang), gen::rand_word(&mut cx.rng, &alpha, 2049, 2200))
+                    let t = if giant4k {
+                        cx.count("stores with a word of more than 4096 letters");
+                        // (every other time the title is that word alone: no shorter word finds the record for it)
+                        if (idx / 1200) % 2 == 0 {
+                            gen::rand_word(&mut cx.rng, &alpha, 4097, 4300)
                         } else {
-                            format!("{} {}", gen::any_word(&mut cx.rng, lang), gen::rand_word(&mut cx.rng, &alpha, 1025, 1300))
+                            format!("{} {}", gen::any_word(&mut cx.rng, lang), gen::rand_word(&mut cx.rng, &alpha, 4097, 4300))
+                        }
+                    } else if cx.rng.chance(1, 2) {
+                        // (one in three beyond 2048 letters)
+                        let lead = if cx.rng.chance(1, 3) { String::new() } else { format!("{} ", gen::any_word(&mut cx.rng, lang)) };
+                        if cx.rng.chance(1, 3) {
+                            format!("{}{}", lead, gen::rand_word(&mut cx.rng, &alpha, 2049, 2200))
+                        } else {
+                            format!("{}{}", lead, gen::rand_word(&mut cx.rng, &alpha, 1025, 1300))
                         }
                     } else {
                         format!("{} {}", gen::rand_word(&mut cx.rng, &alpha, 500, 640), gen::rand_word(&mut cx.rng, &alpha, 520, 640))
                     };
                     recs.truncate(2);
-                    recs.push((77, t, 3));
+                    // judged before or after its short neighbours (what the thread keeps from the long word is then in
+                    // place when they are searched)
+                    if cx.rng.chance(1, 2) {
+                        recs.insert(0, (77, t, 3));
+                    } else {
+                        recs.push((77, t, 3));
+                    }
                     cx.count("stores with a word (or word pair) of more than 1024 letters");
                 }
                 let n = recs.len();
